@@ -97,8 +97,26 @@ Definition iface_eq (a b : val) : res bool :=
   | _, _ => Ok false
   end.
 
-(* reflect.TypeOf(v).Comparable() *)
+(* Comparability of a foreign VALUE: [cmp] says whether == on this value (against a value of the
+   same dynamic type) is defined, i.e. does not panic = reflect.ValueOf(v).Comparable().  A
+   dynamic TYPE can be comparable although a value of it is not: a struct or array type with an
+   interface-typed field is a comparable type, but == panics at run time when that field holds a
+   slice, map or function.  Such "deeply non-comparable" values are the foreign errors with
+   cmp = false and a type id from 200 on: their type is comparable, they are not.  (Dynamic
+   type = (tid, cmp), so E{[]int{1}} and E{7} compare unequal without a panic, as in Go, where
+   the comparison of the interface fields sees different dynamic types.) *)
+Definition deep_tid (t : N) : bool := N.leb 200 t.
+
+(* a deeply non-comparable value: comparable type, non-comparable value *)
+Definition deep (v : val) : bool :=
+  match v with VF t c _ _ => negb c && deep_tid t | _ => false end.
+
+(* reflect.ValueOf(v).Comparable() *)
 Definition comparable (v : val) : bool := match v with VF _ c _ _ => c | _ => true end.
+
+(* reflect.TypeOf(v).Comparable() *)
+Definition type_comparable (v : val) : bool :=
+  match v with VF t c _ _ => c || deep_tid t | _ => true end.
 
 (* ---------------------------------------------------------------- CloneBase *)
 Definition stack_type_eqb (a b : stack_type) : bool :=
@@ -416,7 +434,9 @@ Fixpoint gerr_is_gen (guard : bool) (fuel : nat) (st : store) (i : nat) (err : v
       end
   end.
 
-(* errors.Is: the loop of errors.is *)
+(* errors.Is: the loop of errors.is; [tc] = reflectlite.TypeOf(target).Comparable(), the TYPE's
+   comparability: for a deeply non-comparable target of the same dynamic type as err the stdlib's
+   own `err == target` panics (foreign source and foreign target only: no gerror code runs) *)
 Fixpoint errors_is_loop (guard : bool) (fuel : nat) (st : store) (err target : val) (tc : bool)
   : res bool :=
   match fuel with
@@ -440,7 +460,45 @@ Definition is_fuel (st : store) (err target : val) : nat :=
 
 Definition errors_is_gen (guard : bool) (st : store) (err target : val) : res bool :=
   if is_nil err || is_nil target then iface_eq err target
-  else errors_is_loop guard (is_fuel st err target) st err target (comparable target).
+  else errors_is_loop guard (is_fuel st err target) st err target (type_comparable target).
+
+(* ---- record of the code before the value-level comparability repair: isConvertedFrom guarded
+        by reflect.TypeOf(converted).Comparable(), which answers for the TYPE: a deeply
+        non-comparable converted error passes the guard and the == behind it panics ---- *)
+Definition converted_from_ty (s err : val) : res bool :=
+  if is_nil s then Ok false
+  else if negb (type_comparable s) then Ok false
+  else iface_eq s err.
+
+Fixpoint later_match_ty (l : list val) (err : val) : res bool :=
+  match l with
+  | [] => Ok false
+  | s :: r => bind_true (converted_from_ty s err) (fun _ => later_match_ty r err)
+  end.
+
+Fixpoint gerr_is_ty (fuel : nat) (st : store) (i : nat) (err : val) : res bool :=
+  match fuel with
+  | O => Fuel
+  | S fuel' =>
+      match nth_error st i with
+      | None => Panic
+      | Some c =>
+          let g := c_g c in
+          bind_true (if g_isfac g then iface_eq (VG i) (extract_fref st err) else Ok false) (fun _ =>
+          bind_true (iface_eq (VG i) err) (fun _ =>
+          bind_true (if is_nil (g_fref g) then Ok false else iface_eq (g_fref g) err) (fun _ =>
+          bind_true (converted_from_ty (g_serr g) err) (fun _ =>
+          bind_true (later_match_ty (g_later g) err) (fun _ =>
+          match as_gerror err with
+          | None => Ok false
+          | Some _ =>
+              match unwrap_val st err with
+              | VNil => Ok false
+              | u => gerr_is_ty fuel' st i u
+              end
+          end)))))
+      end
+  end.
 
 Definition errors_is := errors_is_gen true.        (* current (repaired) code *)
 Definition errors_is_orig := errors_is_gen false.  (* pinned code *)
